@@ -531,6 +531,7 @@ def execute(plan, want_logs=False):
 WALK_CAP = 250
 WALK_CAP_HEAVY = {"separation": 8, "sonify": 24, "hierarchy": 40}
 WALK_OPS = {"quick": 320, "thorough": 6000}
+WALK_BYSTANDERS = 8
 
 
 def gen_walk_plan(rng, tier, i):
@@ -558,7 +559,10 @@ def gen_walk_plan(rng, tier, i):
     sharing = [j for j in light if j != a and ra & set((r.b, r.f) for r in refs_of(base["ops"][j]))]
     same_mod = [j for j in light if j != a and base["ops"][j]["fn"].split(".")[0] == base["ops"][a]["fn"].split(".")[0]]
     b = rng.choice(sharing or same_mod or [j for j in light if j != a] or [a])
-    return {"prop": PROP, "walk": {"kind": ["abort", "interleave"][i % 2], "a": a, "b": b}, "specs": base["specs"], "ops": base["ops"],
+    # heavy walks sit at i % 4 == 3, always odd: their kind alternates on the next bit (with i % 2 alone no heavy call
+    # was ever walked for abort points)
+    kind = ["abort", "interleave"][(i // 4) % 2 if i % 4 == 3 else i % 2]
+    return {"prop": PROP, "walk": {"kind": kind, "a": a, "b": b}, "specs": base["specs"], "ops": base["ops"],
             "poison": base["poison"], "ctx": base["ctx"], "groups": base["groups"], "shape": "walk", "actors": {"a0": [a], "a1": [b]},
             "aborts": [], "switch_p": 0.0, "boundary_p": 0.0, "sched_seed": 0}
 
@@ -605,6 +609,19 @@ def _execute_walk(plan, want_logs):
         if st != "ok":
             raise RuntimeError("solo reference failed: %s %s" % (st, res))
         solo[j] = res
+    # bystanders: other ops of the plan (same module as A or B first), used only when a walked point leaves the
+    # library / process state changed -- then each is re-executed alone in a fork of the process as it is NOW and
+    # compared with its reference taken here, in the still pristine process (same rule as the campaign's I2 probe:
+    # a state change is a violation iff some call's result observably depends on it)
+    mods = (opa["fn"].split(".")[0], opb["fn"].split(".")[0])
+    others = [j for j, o in enumerate(plan["ops"]) if j not in (a, b) and (o["fn"].split(".")[0] in mods or o["fn"] not in ops.HEAVY)]
+    others.sort(key=lambda j: (plan["ops"][j]["fn"].split(".")[0] not in mods, j))
+    others = others[:WALK_BYSTANDERS]
+    by_ref, probes_left = {}, 6
+    if others:
+        st, res = core.fork_call(_reexec_all, (plan, others, pB), timeout=180.0)
+        if st == "ok":
+            by_ref = res
     seams.set_poison(plan["poison"])
     seams.WARN.install()
     specs = _specs_for(plan, [a, b])
@@ -622,6 +639,7 @@ def _execute_walk(plan, want_logs):
     if w.get("only_k") is not None:
         ks = [w["only_k"]]
     ls0 = lib_state()
+    seen_states = {core.digest(sorted(ls0.items()))}
     for k in ks:
         pool = build_pool(specs)
         pd0 = pool_digests(pool)
@@ -668,6 +686,34 @@ def _execute_walk(plan, want_logs):
                     report("CONCURRENT_DIFFERS", plan["ops"][j]["fn"], "%s(%s) %s: %s(%s) -> %s %s ; alone -> %s %s" % (
                         opa["fn"], _argstr(opa), what, plan["ops"][j]["fn"], _argstr(plan["ops"][j]), outcome_digest(outs[tag]),
                         core.brief(outs[tag][1]), solo[j][0], solo[j][2]), k)
+        # I2 library / process state, looked at twice: as the walked point leaves it (an aborted call cannot tidy up
+        # after itself) and again after the two complete calls below
+        def lib_check():
+            nonlocal ls0, probes_left
+            ls = lib_state()
+            if ls != ls0:
+                stats.inc("probe.library_state_changed")
+                changed = [key for key in sorted(set(ls) | set(ls0)) if ls.get(key) != ls0.get(key)]
+                for key in changed:
+                    stats.see("lib_state_changes", key)
+                ls0 = ls
+                sk = core.digest(sorted(ls.items()))
+                if by_ref and probes_left > 0 and sk not in seen_states:
+                    # one probe per distinct library state of this walk (a scratch table fills up in stages)
+                    seen_states.add(sk)
+                    probes_left -= 1
+                    st, res = core.fork_call(_reexec_all, (plan, sorted(by_ref), pB), timeout=180.0)
+                    stats.inc("walk.bystander_probes")
+                    seams.set_poison(plan["poison"])
+                    if st == "ok":
+                        names = ", ".join((("mir_eval." + c) if not c.startswith("<") else c) for c in changed[:3])
+                        for j2 in sorted(res):
+                            if res[j2][0] != by_ref[j2][0]:
+                                f2 = plan["ops"][j2]["fn"]
+                                report("HISTORY_DEPENDENT", f2, "%s(%s) %s changed %s; after that, %s(%s) alone on fresh arguments -> %s %s ; in a pristine process -> %s %s" % (
+                                    opa["fn"], _argstr(opa), what, names, f2, _argstr(plan["ops"][j2]), res[j2][0], res[j2][1], by_ref[j2][0], by_ref[j2][1]), k)
+
+        lib_check()
         # what the next calls inherit: B, then A, complete, on fresh arguments
         fresh = build_pool(specs)
         for j in (b, a):
@@ -678,13 +724,7 @@ def _execute_walk(plan, want_logs):
                     solo[j][0], solo[j][2]), k)
             stats.inc("ops")
         seams.WARN.take()
-        ls = lib_state()
-        if ls != ls0:
-            stats.inc("probe.library_state_changed")
-            for key in ls:
-                if ls.get(key) != ls0.get(key):
-                    stats.see("lib_state_changes", key)
-            ls0 = ls
+        lib_check()
         log.add("walk", w["kind"], k, point[0], [outcome_digest(outs[t]) for t in sorted(outs)])
         stats.inc("i3_checked", 2)
     stats.inc("walk.ops")
